@@ -473,11 +473,16 @@ class _KInARow(Constraint):
         level = self.level
         factor = level.factor
         level_list = sample[factor]
+        sustain_count = block.sustain_count(factor)
 
         def check_sequence(start: int, end: int) -> bool:
             counts = []
             count = 0
             for i in range(start, end):
+                if not factor.applies_to_trial(i // sustain_count + 1):
+                    # A trial that the factor's stride skips has no level; as in the
+                    # encoding, it neither continues nor ends a run.
+                    continue
                 l = level_list[i]
                 if count > 0 and l != level:
                     counts.append(count)
